@@ -2,7 +2,7 @@
 
 Part A: container type x every name in dir(type) x argument tuples x access
 routes.  Part B: every built-in filter x container as value / as each
-positional or keyword argument.  Sync and async.  Oracle: deep comparison of
+positional or keyword argument.  Sync and async, autoescape off and on.  Oracle: deep comparison of
 all context data with a copy taken before rendering.
 """
 from __future__ import annotations
@@ -28,8 +28,9 @@ META = {
     "list, loop variable, namespace, do statement, conditional expression, format field); every dunder name with 0-1 "
     "arguments.  Every filter in env.filters is applied with a container as the value (bare, nested in a literal list, "
     "nested in a context list), and with a container in each of the first three positional arguments behind all dummy "
-    "prefixes over {0, 'k', 'list'} and in every keyword parameter of the filter's signature, for 5 value shapes; results are "
-    "printed and iterated so lazy filters run.  After each render all context containers must equal their deep copies "
+    "prefixes over {0, 'k', 'list'} and in every keyword parameter of the filter's signature, for 5 value shapes, sync/async x autoescape off/on, for 6 containers (the five above "
+    "and a list of int, nested list, str, None, float, dict items so element-wise in-place rewrites show); results are "
+    "printed and iterated so lazy filters run.  Part A is repeated under autoescape (quick: 3 routes, thorough: all).  After each render all context containers must equal their deep copies "
     "(order-sensitive); a name in the (CPython-validated) mutating table must end in SecurityError.",
     "note": "Bounded: containers of 2-3 scalars, one call per template, exact builtin types only (no subclasses).  The "
     "mutating-method table is checked against plain CPython calls at start-up: each listed method mutates for at least one "
@@ -38,6 +39,9 @@ META = {
 }
 
 TYPES = ["list", "dict", "set", "deque", "deque-bounded"]
+#: part B also uses a list whose items are ints, floats, None, nested lists and dicts, so that an element-wise
+#: in-place rewrite (e.g. items replaced by their str()) is visible to the type-sensitive comparison
+B_TYPES = TYPES + ["list-mixed"]
 
 
 def fresh(tname):
@@ -51,11 +55,14 @@ def fresh(tname):
         return collections.deque([2, 0, 1])
     if tname == "deque-bounded":
         return collections.deque([2, 0, 1], maxlen=4)
+    if tname == "list-mixed":
+        return [1, [7, 8], "s", None, 2.5, {"k": [3]}]
     raise AssertionError(tname)
 
 
 def pytype(tname):
-    return {"list": list, "dict": dict, "set": set, "deque": collections.deque, "deque-bounded": collections.deque}[tname]
+    return {"list": list, "dict": dict, "set": set, "deque": collections.deque, "deque-bounded": collections.deque,
+            "list-mixed": list}[tname]
 
 
 #: reference table (python library reference, "Mutable Sequence Types", "Mapping Types", "Set Types", collections.deque)
@@ -170,13 +177,16 @@ ROUTES = [
 ]
 
 
-def make_env(asy):
+ESC_ROUTES_QUICK = ("direct", "attr-filter", "format-field")
+
+
+def make_env(asy, esc=False):
     from jinja2.sandbox import ImmutableSandboxedEnvironment
 
-    return ImmutableSandboxedEnvironment(enable_async=asy, extensions=["jinja2.ext.do"], cache_size=0)
+    return ImmutableSandboxedEnvironment(enable_async=asy, autoescape=esc, extensions=["jinja2.ext.do"], cache_size=0)
 
 
-def method_case(asy, tname, M, route, tup, compiled=None):
+def method_case(asy, tname, M, route, tup, compiled=None, esc=False):
     fn = dict(ROUTES)[route]
     src = fn(M, len(tup))
     x = fresh(tname)
@@ -184,7 +194,7 @@ def method_case(asy, tname, M, route, tup, compiled=None):
     for i, ai in enumerate(tup):
         data[f"a{i}"] = ARG_VALUES[ai][1]()
     before = copy.deepcopy(data)
-    env = make_env(asy)
+    env = make_env(asy, esc)
     if compiled is None:
         compiled = sbx.compile_src(env, src)
     res = sbx.render_code(env, compiled, data)
@@ -192,10 +202,10 @@ def method_case(asy, tname, M, route, tup, compiled=None):
     return src, res, changed, before, data
 
 
-def method_script(asy, tname, M, route, tup):
+def method_script(asy, tname, M, route, tup, esc=False):
     return (
         "from checks import c19\n"
-        f"src, res, changed, before, after = c19.method_case({asy!r}, {tname!r}, {M!r}, {route!r}, {tuple(tup)!r})\n"
+        f"src, res, changed, before, after = c19.method_case({asy!r}, {tname!r}, {M!r}, {route!r}, {tuple(tup)!r}, esc={esc!r})\n"
         "print('template:', src)\n"
         "print('context before:', {k: c19.describe(v) for k, v in before.items()})\n"
         "print('context after :', {k: c19.describe(v) for k, v in after.items()})\n"
@@ -205,7 +215,7 @@ def method_script(asy, tname, M, route, tup):
 
 
 def method_shard(arg):
-    asy, tname, names, maxargs = arg
+    asy, tname, names, maxargs, esc, route_ids = arg
     core.import_all_jinja()
     p = core.Part()
     tuples = arg_tuples(maxargs)
@@ -213,40 +223,42 @@ def method_shard(arg):
         is_mut = M in MUTATING[tname]
         worst = None  # (rank, signature, detail)
         for route, fn in ROUTES:
+            if route_ids is not None and route not in route_ids:
+                continue
             comp = {}
             for tup in tuples:
                 if route == "format-field" and tup:
                     continue
                 k = len(tup)
                 if k not in comp:
-                    comp[k] = sbx.compile_src(make_env(asy), fn(M, k))
+                    comp[k] = sbx.compile_src(make_env(asy, esc), fn(M, k))
                     if comp[k][0] != "code":
                         raise core.HarnessError(f"does not compile: {fn(M, k)!r} {comp[k]}")
                 p.evals += 1
-                src, res, changed, before, after = method_case(asy, tname, M, route, tup, comp[k])
+                src, res, changed, before, after = method_case(asy, tname, M, route, tup, comp[k], esc)
                 oc = "ok" if res[0] == "ok" else res[1]
                 p.sig((tname, M, oc))
                 argtxt = "(" + ", ".join(ARG_VALUES[i][0] for i in tup) + ")"
                 if changed:
                     rank = (0, len(tup), route != "direct")
                     det = {
-                        "msg": f"[async={asy}] {tname} {describe(before['x'])}: {M}{argtxt} via {route} changed "
+                        "msg": f"[async={asy} autoescape={esc}] {tname} {describe(before['x'])}: {M}{argtxt} via {route} changed "
                                f"{', '.join(f'{c}: {describe(before[c])} -> {describe(after[c])}' for c in changed)}; "
                                f"template {src!r} -> {res!r}",
                         "async": asy, "type": tname, "method": M, "route": route, "args": argtxt, "template": src,
-                        "script": method_script(asy, tname, M, route, tup),
+                        "script": method_script(asy, tname, M, route, tup, esc),
                     }
                     if worst is None or rank < worst[0]:
                         worst = (rank, f"C19/mutated/{tname}.{M}", det)
                 elif is_mut:
-                    reached = (res != ("ok", "<>")) if route == "format-field" else not (res[0] == "exc" and res[1] == "SecurityError")
+                    reached = (res not in (("ok", "<>"), ("ok", "&lt;&gt;"))) if route == "format-field" else not (res[0] == "exc" and res[1] == "SecurityError")
                     if reached:
                         rank = (1, len(tup), route != "direct")
                         det = {
-                            "msg": f"[async={asy}] mutating method {tname}.{M}{argtxt} via {route} was handed out "
+                            "msg": f"[async={asy} autoescape={esc}] mutating method {tname}.{M}{argtxt} via {route} was handed out "
                                    f"(outcome {res!r} instead of SecurityError / undefined); template {src!r}",
                             "async": asy, "type": tname, "method": M, "route": route, "args": argtxt, "template": src,
-                            "script": method_script(asy, tname, M, route, tup),
+                            "script": method_script(asy, tname, M, route, tup, esc),
                         }
                         if worst is None or rank < worst[0]:
                             worst = (rank, f"C19/reachable/{tname}.{M}", det)
@@ -302,11 +314,11 @@ def filter_template(expr):
     return "{%% set r = %s %%}{{ r }}{%% for i in r %%}{{ i }}{%% endfor %%}" % expr
 
 
-def filter_case(asy, tname, expr, compiled=None):
+def filter_case(asy, tname, expr, compiled=None, esc=False):
     src = filter_template(expr)
     data = {"c": fresh(tname), "w": [fresh(tname)]}
     before = copy.deepcopy(data)
-    env = make_env(asy)
+    env = make_env(asy, esc)
     if compiled is None:
         compiled = sbx.compile_src(env, src)
     _random.seed(0)  # pins the `random` filter of the code under test; the harness itself draws nothing
@@ -317,26 +329,26 @@ def filter_case(asy, tname, expr, compiled=None):
 
 
 def filter_shard(arg):
-    asy, fnames = arg
+    asy, esc, fnames = arg
     core.import_all_jinja()
     p = core.Part()
-    env0 = make_env(asy)
+    env0 = make_env(asy, esc)
     for fname in fnames:
         params = filter_params(env0.filters[fname])
         worst = {}
         for kind, expr in filter_programs(fname, params):
-            comp = sbx.compile_src(make_env(asy), filter_template(expr))
+            comp = sbx.compile_src(make_env(asy, esc), filter_template(expr))
             if comp[0] != "code":
                 raise core.HarnessError(f"does not compile: {expr!r} {comp}")
-            for tname in TYPES:
+            for tname in B_TYPES:
                 p.evals += 1
                 try:
-                    src, res, changed, before, after = filter_case(asy, tname, expr, comp)
+                    src, res, changed, before, after = filter_case(asy, tname, expr, comp, esc)
                 except core.CaseTimeout:
-                    p.violation(f"C19/filter-hang/{fname}", {"msg": f"[async={asy}] {expr!r} with c={tname} did not finish in 120 s"})
+                    p.violation(f"C19/filter-hang/{fname}", {"msg": f"[async={asy} autoescape={esc}] {expr!r} with c={tname} did not finish in 120 s"})
                     continue
                 oc = "ok" if res[0] == "ok" else res[1]
-                p.sig((fname, kind.rstrip("012"), oc))
+                p.sig((fname, kind.rstrip("012"), oc, esc))
                 if changed:
                     # signature names the object that changed: its role in the expression and its type
                     key = changed[0]
@@ -345,12 +357,12 @@ def filter_shard(arg):
                     sig = f"C19/filter-mutated/{fname}/{role}/{type(before[key]).__name__}"
                     rank = (len(expr), not expr.startswith("c|"), tname)
                     det = {
-                        "msg": f"[async={asy}] {{{{ {expr} }}}} with c={describe(before['c'])}, w={describe(before['w'])} changed "
+                        "msg": f"[async={asy} autoescape={esc}] {{{{ {expr} }}}} with c={describe(before['c'])}, w={describe(before['w'])} changed "
                                f"{', '.join(f'{c}: {describe(before[c])} -> {describe(after[c])}' for c in changed)} "
                                f"(outcome {res!r})",
-                        "async": asy, "filter": fname, "placement": kind, "type": tname, "template": src,
+                        "async": asy, "autoescape": esc, "filter": fname, "placement": kind, "type": tname, "template": src,
                         "script": "from checks import c19\n"
-                                  f"src, res, changed, before, after = c19.filter_case({asy!r}, {tname!r}, {expr!r})\n"
+                                  f"src, res, changed, before, after = c19.filter_case({asy!r}, {tname!r}, {expr!r}, esc={esc!r})\n"
                                   "print('template:', src)\n"
                                   "print('context before:', {k: c19.describe(v) for k, v in before.items()})\n"
                                   "print('context after :', {k: c19.describe(v) for k, v in after.items()})\n"
@@ -391,14 +403,18 @@ def run(ctx: core.Ctx):
         nnames[tname] = {"public": len(public), "underscore": len(dunder)}
         for asy in (False, True):
             for c in chunks(public, 3):
-                shards.append((asy, tname, c, 2 if ctx.quick else 3))
+                shards.append((asy, tname, c, 2 if ctx.quick else 3, False, None))
             for c in chunks(dunder, 12):
-                shards.append((asy, tname, c, 1 if ctx.quick else 2))
+                shards.append((asy, tname, c, 1 if ctx.quick else 2, False, None))
+            # autoescape on: attribute access does not depend on it; quick keeps three routes, thorough all
+            for c in chunks(public, 6):
+                shards.append((asy, tname, c, 2, True, ESC_ROUTES_QUICK if ctx.quick else None))
     ctx.pmap(method_shard, shards)
     fnames = sorted(make_env(False).filters)
-    ctx.pmap(filter_shard, [(asy, c) for asy in (False, True) for c in chunks(fnames, 2)])
+    ctx.pmap(filter_shard, [(asy, esc, c) for asy in (False, True) for esc in (False, True) for c in chunks(fnames, 2)])
     ctx.cov["bounds"] = {
         "types": TYPES, "names_per_type": nnames, "arg_values": [a for a, _ in ARG_VALUES], "max_args_public": 2 if ctx.quick else 3,
         "max_args_underscore": 1 if ctx.quick else 2, "routes": len(ROUTES), "filters": len(fnames),
-        "filter_value_forms": VALUE_FORMS, "filter_dummies": DUMMIES, "modes": ["sync", "async"],
+        "filter_value_forms": VALUE_FORMS, "filter_dummies": DUMMIES, "modes": ["sync", "async"], "autoescape": [False, True], "filter_container_types": B_TYPES,
+        "method_routes_under_autoescape": list(ESC_ROUTES_QUICK) if ctx.quick else "all",
     }
